@@ -158,6 +158,7 @@ type State struct {
 	writes map[string][]string // heap key -> bases written (only while summarising a loop)
 	allocLog map[string]bool   // references allocated (only while summarising a loop)
 	heldPlace map[string]*Place
+	lockSnap  map[string]*State // lock key -> state snapshot right after its acquisition
 }
 
 func (st *State) top() *Frame { return st.frames[len(st.frames)-1] }
@@ -192,6 +193,12 @@ func (st *State) clone() *State {
 		n.ghost[k] = v
 	}
 	n.trail = append([]string{}, st.trail...)
+	if st.lockSnap != nil {
+		n.lockSnap = make(map[string]*State, len(st.lockSnap))
+		for k, v := range st.lockSnap {
+			n.lockSnap[k] = v
+		}
+	}
 	n.heldPlace = make(map[string]*Place, len(st.heldPlace))
 	for k, v := range st.heldPlace {
 		n.heldPlace[k] = v
@@ -336,7 +343,7 @@ func (st *State) load(p *Place) Val {
 	}
 	if p.Kind == PCell && len(p.Path) == 0 && !p.HasArr {
 		cv := st.cells[p.Cell]
-		out.P, out.Bk, out.Clo = cv.P, cv.Bk, cv.Clo
+		out.P, out.Bk, out.Clo, out.Lk = cv.P, cv.Bk, cv.Clo, cv.Lk
 	}
 	if p.Kind != PCell || p.HasArr {
 		// name loaded scalars and assume their type ranges
@@ -383,7 +390,7 @@ func (st *State) store(p *Place, v Val) {
 			}
 			cv.C = nc
 			if len(p.Path) == 0 && !p.HasArr {
-				cv.P, cv.Bk, cv.Clo = v.P, v.Bk, v.Clo
+				cv.P, cv.Bk, cv.Clo, cv.Lk = v.P, v.Bk, v.Clo, v.Lk
 			}
 			st.cells[p.Cell] = cv
 		case PObj:
